@@ -195,7 +195,11 @@ func opMerge(r *rand.Rand, n int) {
 			emit(op, "err "+err.Error())
 			continue
 		}
-		emit(op, canonResponse(m.(*listoffsets.Response)))
+		if res, ok := m.(*listoffsets.Response); ok && res != nil {
+			emit(op, canonResponse(res))
+		} else {
+			emit(op, "nil")
+		}
 	}
 }
 
@@ -443,4 +447,5 @@ func main() {
 	opSeek(r, nSeek)
 	opReadOffset(r, nSeek/2)
 	opGroupAndMeta(r, nScen)
+	opMappingsF(r, nSeek/2)
 }
